@@ -43,6 +43,18 @@ func H_C16() {
 	vx.Assert("C16", err == nil, "a size-bounded merge of a valid log succeeds")
 	got := A.Values().Slice()
 	if vx.Param("SORT", sortHash) != sortHash && !h.strictTotal() {
+		// the ordering is not a strict total order on these entries (ties): which entries are "the last n" is not
+		// determined, but how many are kept is, and so is the well-formedness of the result
+		all := entriesOf(A2) // the unbounded merge's entries (its linearisation is not used: the ordering is not total)
+		kk := n
+		if kk > len(all) {
+			kk = len(all)
+		}
+		full = all
+		vx.Assert("C16", len(got) == kk && A.Len() == kk, "the log holds exactly min(n, total) entries (ordering with ties)")
+		vx.Assert("C16", subset(hashSet(got), hashSet(full)), "the kept entries are entries of the unbounded merge (ordering with ties)")
+		vx.Assert("C16", sameSet(hashSet(A.Heads().Slice()), refHeads(got)), "heads are the unreferenced entries among the kept ones (ordering with ties)")
+		vx.Cover("c16-ties")
 		return
 	}
 	k := n
